@@ -19,7 +19,7 @@ RULE = ('cases = dmrg_cross(f,N,eps) and function_interpolate(f,x,eps) (one argu
 ASSUMPTIONS = ['"a small multiple of eps" fixed a priori as 10*eps', 'argument tensors of function_interpolate are int-valued (xfun index tensor / integer meshgrids) so that "is an actual entry" is an exact membership test',
                'the multivariate form is used as documented: d argument tensors for d modes']
 REQUIRED_REACH = ['interpolate:dmrg_cross', 'interpolate:function_interpolate', 'interpolate:_maxvol']
-REQUIRED_COUNTS = {'routine:dmrg_cross': 1, 'routine:interp_uni': 1, 'routine:interp_multi': 1, 'routine:interp_coupled': 1, 'second_use_after_argument_changed': 5, 'callback_invocations': 100, 'callback_indices_checked': 1000, 'start:user': 1,
+REQUIRED_COUNTS = {'routine:dmrg_cross': 1, 'routine:interp_uni': 1, 'routine:interp_multi': 1, 'routine:interp_coupled': 1, 'second_use_after_argument_changed': 5, 'single_callback_with_more_than_65536_rows': 1, 'callback_invocations': 100, 'callback_indices_checked': 1000, 'start:user': 1,
                    'regime:mode<rank+kick': 1, 'executions': 100}
 LINE_FUNCS = ['dmrg_cross', 'function_interpolate', '_maxvol']
 CASE_TIMEOUT = {'quick': 300, 'thorough': 600}
@@ -46,6 +46,10 @@ def cases(tier, seed):
             c = dict(base)
             c['sidx'] = j
             cs.append(c)
+    # large smooth problems at tight eps: order 4, mode size 20, 1/(2 + i+j+k+l)^2 at eps = 1e-10 - ranks around 14, so a single function call carries more than 65536 sample points
+    for i in range(4 if not T else 16):
+        cs.append({'gen': 'cross', 'routine': ['interp_uni', 'interp_multi', 'dmrg_cross', 'interp_uni'][i % 4], 'N': [20] * 4 if i % 2 == 0 else [20, 19, 20, 18], 'target': 'smooth2', 'R': [1, 1, 1, 1, 1],
+                   'eps': 1e-10, 'start': False, 'tscale': 1.0, 'vseed': rng.randrange(2 ** 40), 'sidx': 0})
     return cs
 
 
@@ -62,6 +66,8 @@ def run_case(case, ctx):
     else:
         grids = torch.meshgrid(*[torch.arange(m, dtype=dt) for m in N], indexing='ij')
         Tt = 1.0 / (2.0 + sum(grids))
+        if case['target'] == 'smooth2':
+            Tt = Tt * Tt
     Tt = Tt * float(case.get('tscale', 1.0))      # overall magnitude of the function values (a cut-off that is not relative to the norm shows at 1e-7 / 1e-9)
     # xfun enumerates entries with the FIRST index running fastest (i0 + N0*i1 + ...): flatten the table in that order
     Tflat = Tt.permute(list(range(d - 1, -1, -1))).reshape(-1)
@@ -76,7 +82,7 @@ def run_case(case, ctx):
         ctx.count('start:user')
     key = '%s/%s' % (routine, case['target'])
     what = '%s N=%s target=%s R=%s scale=%g eps=%.2e start=%s seed-index %d' % (routine, N, case['target'], case['R'] if case['target'] == 'lowrank' else '-', case.get('tscale', 1.0), eps, case['start'], case['sidx'])
-    cb = {'calls': 0, 'rows': 0, 'bad': None, 'colmin': [10 ** 9] * d, 'colmax': [-1] * d}
+    cb = {'calls': 0, 'rows': 0, 'maxrows': 0, 'bad': None, 'colmin': [10 ** 9] * d, 'colmax': [-1] * d}
 
     def flag(msg):
         if cb['bad'] is None:
@@ -90,6 +96,7 @@ def run_case(case, ctx):
                 flag('argument is %s, expected an int64 M x %d tensor' % (hooks.signature(I), d))
                 raise ValueError('malformed index matrix')
             cb['rows'] += I.shape[0]
+            cb['maxrows'] = max(cb['maxrows'], I.shape[0])
             for kcol in range(d):
                 if I.shape[0]:
                     lo, hi = int(I[:, kcol].min()), int(I[:, kcol].max())
@@ -112,13 +119,21 @@ def run_case(case, ctx):
         from torchtt import _extras
         xarg = _extras.xfun(list(N), dtype=dt)
         valid = torch.arange(n, dtype=dt)
+        # in half of the cases (and in all large ones) the argument is shifted by an integer offset, so that 0.0 - what an uninitialised or unfilled buffer holds - is NOT one of its entries
+        off = 5.0 if (case['seed'] % 2 == 1 or n > 100000) else 0.0
+        if off:
+            xarg = ctx.call('TT+scalar', lambda a: a + off, xarg)
+            ctx.count('interp_uni/argument-without-a-zero-entry')
 
         def fun(v):
+            if torch.is_tensor(v) and off:
+                v = v - off
             cb['calls'] += 1
             if not torch.is_tensor(v) or not v.is_floating_point() or v.dim() != 1:
                 flag('argument is %s, expected a 1-d float tensor' % hooks.signature(v))
                 raise ValueError('malformed value vector')
             cb['rows'] += v.shape[0]
+            cb['maxrows'] = max(cb['maxrows'], v.shape[0])
             r = torch.round(v)
             if v.shape[0] and (not torch.equal(r, v) or float(v.min()) < 0 or float(v.max()) > n - 1):
                 flag('value passed to the function is not an entry of the argument tensor: min %r max %r non-integer %d' % (float(v.min()), float(v.max()), int((r != v).sum())))
@@ -144,6 +159,7 @@ def run_case(case, ctx):
                 flag('argument is %s, expected a float M x %d tensor' % (hooks.signature(V), d))
                 raise ValueError('malformed value matrix')
             cb['rows'] += V.shape[0]
+            cb['maxrows'] = max(cb['maxrows'], V.shape[0])
             r = torch.round(V)
             J = r.long()
             idx = []
@@ -225,6 +241,7 @@ def run_case(case, ctx):
                 flag('argument is %s, expected a float M x %d tensor' % (hooks.signature(V), d))
                 raise ValueError('malformed value matrix')
             cb['rows'] += V.shape[0]
+            cb['maxrows'] = max(cb['maxrows'], V.shape[0])
             J = decode(V) if V.shape[0] else torch.zeros((0, d), dtype=torch.long)
             if J is None:
                 flag('row values are not entries of the argument tensors taken at one multi-index (%s arguments): first row %s' % (form, V[0].tolist()))
@@ -245,6 +262,8 @@ def run_case(case, ctx):
         y = invoke()
     ctx.count('callback_invocations', cb['calls'])
     ctx.count('callback_indices_checked', cb['rows'])
+    if cb['maxrows'] > 65536:
+        ctx.count('single_callback_with_more_than_65536_rows')
     if cb['bad'] is not None:
         ctx.viol(key + '/clause=callback-argument', '%s: %s (after %d callback invocations)' % (what, cb['bad'], cb['calls']))
     if isinstance(y, Raised):
